@@ -37,6 +37,8 @@ theorem pendingOf_pop_sentinel (x : Loop) (q : List Task) (r : Bool) (c : List N
 theorem pendingOf_queue (x : Loop) (r : Bool) (c : List Nat) :
     pendingOf { running := r, queue := x.queue, conns := c } = pendingOf x := rfl
 
+theorem pendingOf_nil (r : Bool) (c : List Nat) : pendingOf { running := r, queue := [], conns := c } = [] := rfl
+
 /-! ## what each step does, as a relation on the observed quantities -/
 
 /-- the observed quantities of a state -/
@@ -50,15 +52,16 @@ structure Obs where
 def obs (s : State) : Obs :=
   { P := pending s, R := registered s, C := s.closed, n := s.nextFd, O := s.opened.map Prod.fst }
 
-/-- the counting invariant: ownership partition, and OnOpen descriptors are the registered or closed ones -/
+/-- the counting invariant: ownership partition, and OnOpen descriptors are among the registered or closed ones
+(an aborted registration is closed without OnOpen) -/
 def Good (o : Obs) : Prop :=
   (∀ a, List.count a (o.P ++ o.R ++ o.C) = List.count a (List.range o.n)) ∧
-  (∀ a, List.count a o.O = List.count a (o.R ++ o.C))
+  (∀ a, List.count a o.O ≤ List.count a (o.R ++ o.C))
 
 def I1 (s : State) : Prop := Good (obs s)
 
-/-- a loop that left Polling has no registered connections -/
-def I2 (s : State) : Prop := ∀ x ∈ s.loops, x.running = false → x.conns = []
+/-- a loop that left Polling has no waiting registrations and no registered connections -/
+def I2 (s : State) : Prop := ∀ x ∈ s.loops, x.running = false → pendingOf x = [] ∧ x.conns = []
 
 def I3 (s : State) : Prop := s.assigned.map Prod.fst = List.range s.nextFd
 
@@ -78,6 +81,60 @@ theorem I1_setLoop_cases (s : State) (l : Nat) (x : Loop) (hx : s.loops[l]? = so
   obtain ⟨A', B', h1', h2'⟩ := flat_set (·.conns) s.loops l x hx
   exact ⟨A, B, A', B', h1, h1', fun y => ⟨h2 y, h2' y⟩⟩
 
+/-- what `exitLoop` does when it is applied to (a variant of) the loop at index l -/
+theorem exitLoop_spec (s : State) (l : Nat) (x y : Loop) (hx : s.loops[l]? = some x)
+    (hp : pendingOf y = pendingOf x) (hc : y.conns = x.conns) :
+    ∃ A B A' B', pending s = A ++ pendingOf x ++ B ∧ registered s = A' ++ x.conns ++ B' ∧
+      pending (exitLoop s l y) = A ++ B ∧ registered (exitLoop s l y) = A' ++ B' ∧
+      (exitLoop s l y).closed = s.closed ++ x.conns ++ pendingOf x ∧
+      (exitLoop s l y).results = s.results ++ (pendingOf x).filter (· ∈ s.enrolled) ∧
+      (exitLoop s l y).failed = s.failed ++ (pendingOf x).filter (· ∈ s.enrolled) := by
+  obtain ⟨A, B, A', B', h1, h2, h3⟩ := I1_setLoop_cases s l x hx
+  refine ⟨A, B, A', B', h1, h2, ?_, ?_, ?_, ?_, ?_⟩
+  · have := (h3 { running := false, queue := [], conns := [] }).1
+    rw [pendingOf_nil, List.append_nil] at this
+    exact this
+  · have := (h3 { running := false, queue := [], conns := [] }).2
+    rw [List.append_nil] at this
+    exact this
+  · show s.closed ++ y.conns ++ pendingOf y = _
+    rw [hc, hp]
+  · show s.results ++ (pendingOf y).filter (· ∈ s.enrolled) = _
+    rw [hp]
+  · show s.failed ++ (pendingOf y).filter (· ∈ s.enrolled) = _
+    rw [hp]
+
+theorem I1_exitLoop (s : State) (l : Nat) (x y : Loop) (hx : s.loops[l]? = some x)
+    (hp : pendingOf y = pendingOf x) (hc : y.conns = x.conns) (h : I1 s) : I1 (exitLoop s l y) := by
+  obtain ⟨A, B, A', B', e1, e2, e3, e4, e5, _, _⟩ := exitLoop_spec s l x y hx hp hc
+  have e6 : (exitLoop s l y).nextFd = s.nextFd := rfl
+  have e7 : (exitLoop s l y).opened = s.opened := rfl
+  obtain ⟨h1, h2⟩ := h
+  refine ⟨?_, ?_⟩
+  · intro a
+    have := h1 a
+    simp only [obs, e1, e2, e3, e4, e5, e6, List.count_append] at this ⊢
+    omega
+  · intro a
+    have := h2 a
+    simp only [obs, e1, e2, e3, e4, e5, e7, List.count_append] at this ⊢
+    omega
+
+/-- a step that only closes the fresh descriptor `s.nextFd` (the chosen loop has exited) -/
+theorem I1_abort (s s' : State) (hl : s'.loops = s.loops) (hn : s'.nextFd = s.nextFd + 1)
+    (hc : s'.closed = s.closed ++ [s.nextFd]) (ho : s'.opened = s.opened) (h : I1 s) : I1 s' := by
+  obtain ⟨h1, h2⟩ := h
+  refine ⟨?_, ?_⟩
+  · intro a
+    have := h1 a
+    simp only [obs, pending, registered, hl, hn, hc, List.range_succ, List.count_append,
+      List.count_singleton] at this ⊢
+    omega
+  · intro a
+    have := h2 a
+    simp only [obs, pending, registered, hl, hc, ho, List.count_append] at this ⊢
+    omega
+
 theorem I1_step (s : State) (a : Step) (h : I1 s) : I1 (step s a) := by
   cases a with
   | accept l =>
@@ -85,19 +142,21 @@ theorem I1_step (s : State) (a : Step) (h : I1 s) : I1 (step s a) := by
     split
     · rename_i x hx
       split
-      · obtain ⟨A, B, A', B', hp, hr, hy⟩ := I1_setLoop_cases s l x hx
-        obtain ⟨h1, h2⟩ := h
-        simp only [obs, hp, hr] at h1 h2
-        refine ⟨?_, ?_⟩
-        · intro a
-          have := h1 a
-          simp only [obs, pending, registered, setLoop, hy, pendingOf_push_register, List.range_succ,
-            List.count_append, List.count_singleton] at this ⊢
-          omega
-        · intro a
-          have := h2 a
-          simp only [obs, pending, registered, setLoop, hy, List.count_append] at this ⊢
-          omega
+      · split
+        · obtain ⟨A, B, A', B', hp, hr, hy⟩ := I1_setLoop_cases s l x hx
+          obtain ⟨h1, h2⟩ := h
+          simp only [obs, hp, hr] at h1 h2
+          refine ⟨?_, ?_⟩
+          · intro a
+            have := h1 a
+            simp only [obs, pending, registered, setLoop, hy, pendingOf_push_register, List.range_succ,
+              List.count_append, List.count_singleton] at this ⊢
+            omega
+          · intro a
+            have := h2 a
+            simp only [obs, pending, registered, setLoop, hy, List.count_append] at this ⊢
+            omega
+        · exact I1_abort s _ rfl rfl rfl rfl h
       · exact h
     · exact h
   | exec l =>
@@ -123,21 +182,7 @@ theorem I1_step (s : State) (a : Step) (h : I1 s) : I1 (step s a) := by
               List.map_cons, List.map_nil, List.count_singleton] at this ⊢
             omega
         · rename_i q hq
-          obtain ⟨A, B, A', B', hp, hr, hy⟩ := I1_setLoop_cases s l x hx
-          obtain ⟨h1, h2⟩ := h
-          simp only [obs, hp, hr] at h1 h2
-          rw [pendingOf_pop_sentinel x q false [] hq] at h1
-          refine ⟨?_, ?_⟩
-          · intro a
-            have := h1 a
-            simp only [obs, pending, registered, setLoop, exitLoop, hy, List.count_append,
-              List.count_nil] at this ⊢
-            omega
-          · intro a
-            have := h2 a
-            simp only [obs, pending, registered, setLoop, exitLoop, hy, List.count_append,
-              List.count_nil] at this ⊢
-            omega
+          exact I1_exitLoop s l x _ hx (pendingOf_pop_sentinel x q x.running x.conns hq).symm rfl h
         · exact h
       · exact h
     · exact h
@@ -146,21 +191,7 @@ theorem I1_step (s : State) (a : Step) (h : I1 s) : I1 (step s a) := by
     split
     · rename_i x hx
       split
-      · obtain ⟨A, B, A', B', hp, hr, hy⟩ := I1_setLoop_cases s l x hx
-        obtain ⟨h1, h2⟩ := h
-        simp only [obs, hp, hr] at h1 h2
-        rw [← pendingOf_queue x false []] at h1
-        refine ⟨?_, ?_⟩
-        · intro a
-          have := h1 a
-          simp only [obs, pending, registered, setLoop, exitLoop, hy, List.count_append,
-            List.count_nil] at this ⊢
-          omega
-        · intro a
-          have := h2 a
-          simp only [obs, pending, registered, setLoop, exitLoop, hy, List.count_append,
-            List.count_nil] at this ⊢
-          omega
+      · exact I1_exitLoop s l x x hx rfl rfl h
       · exact h
     · exact h
   | peerClose l fd =>
@@ -221,19 +252,21 @@ theorem I1_step (s : State) (a : Step) (h : I1 s) : I1 (step s a) := by
     split
     · rename_i x hx
       split
-      · obtain ⟨A, B, A', B', hp, hr, hy⟩ := I1_setLoop_cases s l x hx
-        obtain ⟨h1, h2⟩ := h
-        simp only [obs, hp, hr] at h1 h2
-        refine ⟨?_, ?_⟩
-        · intro a
-          have := h1 a
-          simp only [obs, pending, registered, setLoop, hy, pendingOf_push_register, List.range_succ,
-            List.count_append, List.count_singleton] at this ⊢
-          omega
-        · intro a
-          have := h2 a
-          simp only [obs, pending, registered, setLoop, hy, List.count_append] at this ⊢
-          omega
+      · split
+        · obtain ⟨A, B, A', B', hp, hr, hy⟩ := I1_setLoop_cases s l x hx
+          obtain ⟨h1, h2⟩ := h
+          simp only [obs, hp, hr] at h1 h2
+          refine ⟨?_, ?_⟩
+          · intro a
+            have := h1 a
+            simp only [obs, pending, registered, setLoop, hy, pendingOf_push_register, List.range_succ,
+              List.count_append, List.count_singleton] at this ⊢
+            omega
+          · intro a
+            have := h2 a
+            simp only [obs, pending, registered, setLoop, hy, List.count_append] at this ⊢
+            omega
+        · exact I1_abort s _ rfl rfl rfl rfl h
       · exact h
     · exact h
   | setFlag =>
@@ -244,8 +277,9 @@ theorem I1_step (s : State) (a : Step) (h : I1 s) : I1 (step s a) := by
 
 /-! ### I2 -/
 
-theorem I2_set (s : State) (l : Nat) (y : Loop) (h : I2 s) (hy : y.running = false → y.conns = []) :
-    ∀ x ∈ s.loops.set l y, x.running = false → x.conns = [] := by
+theorem I2_set (s : State) (l : Nat) (y : Loop) (h : I2 s)
+    (hy : y.running = false → pendingOf y = [] ∧ y.conns = []) :
+    ∀ x ∈ s.loops.set l y, x.running = false → pendingOf x = [] ∧ x.conns = [] := by
   intro x hx
   rcases List.mem_or_eq_of_mem_set hx with hm | he
   · exact h x hm
@@ -258,7 +292,10 @@ theorem I2_step (s : State) (a : Step) (h : I2 s) : I2 (step s a) := by
     split
     · rename_i x hx
       split
-      · exact I2_set s l _ h (fun hr => h x (List.mem_of_getElem? hx) hr)
+      · split
+        · rename_i hrun
+          exact I2_set s l _ h (fun hr => by simp [hrun] at hr)
+        · exact h
       · exact h
     · exact h
   | exec l =>
@@ -269,7 +306,7 @@ theorem I2_step (s : State) (a : Step) (h : I2 s) : I2 (step s a) := by
       · rename_i hrun
         split
         · exact I2_set s l _ h (fun hr => by simp [hrun] at hr)
-        · exact I2_set s l _ h (fun _ => rfl)
+        · exact I2_set s l _ h (fun _ => ⟨rfl, rfl⟩)
         · exact h
       · exact h
     · exact h
@@ -277,7 +314,7 @@ theorem I2_step (s : State) (a : Step) (h : I2 s) : I2 (step s a) := by
     simp only [step]
     split
     · split
-      · exact I2_set s l _ h (fun _ => rfl)
+      · exact I2_set s l _ h (fun _ => ⟨rfl, rfl⟩)
       · exact h
     · exact h
   | peerClose l fd =>
@@ -296,7 +333,8 @@ theorem I2_step (s : State) (a : Step) (h : I2 s) : I2 (step s a) := by
     · intro x hx
       simp only [List.mem_map] at hx
       obtain ⟨z, hz, rfl⟩ := hx
-      exact h z hz
+      intro hr
+      exact ⟨(pendingOf_push_sentinel z).trans (h z hz hr).1, (h z hz hr).2⟩
     · exact h
   | acceptorExit =>
     simp only [step]
@@ -308,7 +346,10 @@ theorem I2_step (s : State) (a : Step) (h : I2 s) : I2 (step s a) := by
     split
     · rename_i x hx
       split
-      · exact I2_set s l _ h (fun hr => h x (List.mem_of_getElem? hx) hr)
+      · split
+        · rename_i hrun
+          exact I2_set s l _ h (fun hr => by simp [hrun] at hr)
+        · exact h
       · exact h
     · exact h
   | setFlag =>
@@ -325,8 +366,11 @@ theorem I3_step (s : State) (a : Step) (h : I3 s) : I3 (step s a) := by
     simp only [step]
     split
     · split
-      · unfold I3 at h ⊢
-        simp only [List.map_append, List.map_cons, List.map_nil, h, List.range_succ]
+      · split
+        · unfold I3 at h ⊢
+          simp only [List.map_append, List.map_cons, List.map_nil, h, List.range_succ]
+        · unfold I3 at h ⊢
+          simp only [List.map_append, List.map_cons, List.map_nil, h, List.range_succ]
       · exact h
     · exact h
   | exec l =>
@@ -368,8 +412,11 @@ theorem I3_step (s : State) (a : Step) (h : I3 s) : I3 (step s a) := by
     simp only [step]
     split
     · split
-      · unfold I3 at h ⊢
-        simp only [List.map_append, List.map_cons, List.map_nil, h, List.range_succ]
+      · split
+        · unfold I3 at h ⊢
+          simp only [List.map_append, List.map_cons, List.map_nil, h, List.range_succ]
+        · unfold I3 at h ⊢
+          simp only [List.map_append, List.map_cons, List.map_nil, h, List.range_succ]
       · exact h
     · exact h
   | setFlag =>
@@ -403,12 +450,14 @@ theorem I4_step (s : State) (a : Step) (h : I4 s) : I4 (step s a) := by
     split
     · rename_i x hx
       split
-      · refine I4_set s l _ (s.assigned ++ [(s.nextFd, l)]) h (fun p hp => List.mem_append_left _ hp) ?_
-        intro fd hfd
-        simp only [List.mem_append, List.mem_singleton] at hfd ⊢
-        rcases hfd with hfd | hfd
-        · exact Or.inl (h l x hx fd hfd)
-        · injection hfd with hfd; subst hfd; exact Or.inr rfl
+      · split
+        · refine I4_set s l _ (s.assigned ++ [(s.nextFd, l)]) h (fun p hp => List.mem_append_left _ hp) ?_
+          intro fd hfd
+          simp only [List.mem_append, List.mem_singleton] at hfd ⊢
+          rcases hfd with hfd | hfd
+          · exact Or.inl (h l x hx fd hfd)
+          · injection hfd with hfd; subst hfd; exact Or.inr rfl
+        · exact fun l' x' hx' fd hfd => List.mem_append_left _ (h l' x' hx' fd hfd)
       · exact h
     · exact h
   | exec l =>
@@ -421,10 +470,7 @@ theorem I4_step (s : State) (a : Step) (h : I4 s) : I4 (step s a) := by
           refine I4_set s l _ s.assigned h (fun p hp => hp) ?_
           intro fd' hfd'
           exact h l x hx fd' (by rw [hq]; exact List.mem_cons_of_mem _ hfd')
-        · rename_i q hq
-          refine I4_set s l _ s.assigned h (fun p hp => hp) ?_
-          intro fd' hfd'
-          exact h l x hx fd' (by rw [hq]; exact List.mem_cons_of_mem _ hfd')
+        · exact I4_set s l _ s.assigned h (fun p hp => hp) (fun fd' hfd' => by simp at hfd')
         · exact h
       · exact h
     · exact h
@@ -433,7 +479,7 @@ theorem I4_step (s : State) (a : Step) (h : I4 s) : I4 (step s a) := by
     split
     · rename_i x hx
       split
-      · exact I4_set s l _ s.assigned h (fun p hp => hp) (fun fd hfd => h l x hx fd hfd)
+      · exact I4_set s l _ s.assigned h (fun p hp => hp) (fun fd' hfd' => by simp at hfd')
       · exact h
     · exact h
   | peerClose l fd =>
@@ -466,12 +512,14 @@ theorem I4_step (s : State) (a : Step) (h : I4 s) : I4 (step s a) := by
     split
     · rename_i x hx
       split
-      · refine I4_set s l _ (s.assigned ++ [(s.nextFd, l)]) h (fun p hp => List.mem_append_left _ hp) ?_
-        intro fd hfd
-        simp only [List.mem_append, List.mem_singleton] at hfd ⊢
-        rcases hfd with hfd | hfd
-        · exact Or.inl (h l x hx fd hfd)
-        · injection hfd with hfd; subst hfd; exact Or.inr rfl
+      · split
+        · refine I4_set s l _ (s.assigned ++ [(s.nextFd, l)]) h (fun p hp => List.mem_append_left _ hp) ?_
+          intro fd hfd
+          simp only [List.mem_append, List.mem_singleton] at hfd ⊢
+          rcases hfd with hfd | hfd
+          · exact Or.inl (h l x hx fd hfd)
+          · injection hfd with hfd; subst hfd; exact Or.inr rfl
+        · exact fun l' x' hx' fd hfd => List.mem_append_left _ (h l' x' hx' fd hfd)
       · exact h
     · exact h
   | setFlag =>
@@ -488,8 +536,11 @@ theorem I5_step (s : State) (a : Step) (h4 : I4 s) (h : I5 s) : I5 (step s a) :=
     simp only [step]
     split
     · split
-      · intro p hp
-        exact List.mem_append_left _ (h p hp)
+      · split
+        · intro p hp
+          exact List.mem_append_left _ (h p hp)
+        · intro p hp
+          exact List.mem_append_left _ (h p hp)
       · exact h
     · exact h
   | exec l =>
@@ -538,8 +589,11 @@ theorem I5_step (s : State) (a : Step) (h4 : I4 s) (h : I5 s) : I5 (step s a) :=
     simp only [step]
     split
     · split
-      · intro p hp
-        exact List.mem_append_left _ (h p hp)
+      · split
+        · intro p hp
+          exact List.mem_append_left _ (h p hp)
+        · intro p hp
+          exact List.mem_append_left _ (h p hp)
       · exact h
     · exact h
   | setFlag =>
@@ -570,6 +624,7 @@ theorem Inv_init (n : Nat) : Inv (init n) := by
   · intro x hx hr
     simp only [init, List.mem_replicate] at hx
     rw [hx.2]
+    exact ⟨rfl, rfl⟩
   · simp [I3, init]
   · intro l x hx fd hfd
     simp only [init, List.getElem?_replicate] at hx
@@ -594,11 +649,13 @@ theorem opened_assigned (s : State) (h : Reachable s) :
     (∀ p ∈ s.opened, p ∈ s.assigned) ∧ (s.opened.map Prod.fst).Nodup ∧ s.assigned.map Prod.fst = created s := by
   have hi := Inv_of_reachable s h
   refine ⟨hi.2.2.2.2, ?_, hi.2.2.1⟩
-  have hp : (s.opened.map Prod.fst).Perm (registered s ++ s.closed) := List.perm_iff_count.mpr hi.1.2
   have hall : (pending s ++ registered s ++ s.closed).Nodup :=
     (partition s h).nodup_iff.mpr List.nodup_range
   rw [List.append_assoc] at hall
-  exact hp.nodup_iff.mpr (List.nodup_append.mp hall).2.1
+  have hrc := List.nodup_iff_count.mp (List.nodup_append.mp hall).2.1
+  rw [List.nodup_iff_count]
+  intro a
+  exact Nat.le_trans (hi.1.2 a) (hrc a)
 
 theorem step_exec_register (s : State) (l : Nat) (x : Loop) (fd : Nat) (q : List Task)
     (hx : s.loops[l]? = some x) (hr : x.running = true) (hq : x.queue = Task.register fd :: q) :
@@ -648,43 +705,16 @@ theorem registered_final (s : State) (hi : Inv s) (hf : Final s = true) : regist
   intro c hc
   simp only [List.mem_map] at hc
   obtain ⟨x, hx, rfl⟩ := hc
-  exact hi.2.1 x hx (hf.2 x hx)
+  exact (hi.2.1 x hx (hf.2 x hx)).2
 
-theorem final_unclosed (s : State) (h : Reachable s) (hf : Final s = true) :
-    ∀ fd, fd ∈ unclosed s ↔ fd ∈ pending s := by
-  have hi := Inv_of_reachable s h
-  have hpart := partition s h
-  rw [registered_final s hi hf, List.append_nil] at hpart
-  have hnd : (pending s ++ s.closed).Nodup := hpart.nodup_iff.mpr List.nodup_range
-  intro fd
-  simp only [unclosed, List.mem_filter, decide_eq_true_eq]
-  constructor
-  · rintro ⟨hc, hnc⟩
-    have := hpart.mem_iff.mpr hc
-    rcases List.mem_append.mp this with hm | hm
-    · exact hm
-    · exact absurd hm hnc
-  · intro hp
-    refine ⟨hpart.mem_iff.mp (List.mem_append_left _ hp), ?_⟩
-    intro hc
-    exact (List.nodup_append.mp hnd).2.2 fd hp fd hc rfl
-
-theorem leak_by_action :
-    let s := run (init 1) [.accept 0, .accept 0, .exec 0, .action 0, .postSentinels, .acceptorExit]
-    Final s = true ∧ unclosed s = [1] := by
-  decide
-
-theorem leak_by_stop :
-    let s := run (init 2) [.requestStop, .postSentinels, .accept 1, .exec 0, .exec 1, .acceptorExit]
-    Final s = true ∧ unclosed s = [0] := by
-  decide
-
-theorem no_stranded_no_leak (s : State) (h : Reachable s) (hf : Final s = true) (hp : pending s = []) :
-    s.closed.Perm (created s) := by
-  have hi := Inv_of_reachable s h
-  have hpart := partition s h
-  rw [registered_final s hi hf, hp] at hpart
-  simpa using hpart
+theorem pending_final (s : State) (hi : Inv s) (hf : Final s = true) : pending s = [] := by
+  simp only [Final, Bool.and_eq_true, List.all_eq_true, Bool.not_eq_true'] at hf
+  unfold pending
+  rw [List.flatten_eq_nil_iff]
+  intro c hc
+  simp only [List.mem_map] at hc
+  obtain ⟨x, hx, rfl⟩ := hc
+  exact (hi.2.1 x hx (hf.2 x hx)).1
 
 /-! ## enrolments and their results -/
 
@@ -698,16 +728,24 @@ theorem step_cases (s : State) (a : Step) :
       ((step s a).enrolled = s.enrolled ∨ (step s a).enrolled = s.enrolled ++ [s.nextFd])) ∨
     (∃ A B fd, pending s = A ++ fd :: B ∧ pending (step s a) = A ++ B ∧ (step s a).nextFd = s.nextFd ∧
       (step s a).enrolled = s.enrolled ∧
-      (step s a).results = if fd ∈ s.enrolled then s.results ++ [fd] else s.results) := by
+      (step s a).results = if fd ∈ s.enrolled then s.results ++ [fd] else s.results) ∨
+    (pending (step s a) = pending s ∧ (step s a).nextFd = s.nextFd + 1 ∧
+      (((step s a).results = s.results ∧ (step s a).enrolled = s.enrolled) ∨
+       ((step s a).results = s.results ++ [s.nextFd] ∧ (step s a).enrolled = s.enrolled ++ [s.nextFd]))) ∨
+    (∃ A M B, pending s = A ++ M ++ B ∧ pending (step s a) = A ++ B ∧ (step s a).nextFd = s.nextFd ∧
+      (step s a).enrolled = s.enrolled ∧
+      (step s a).results = s.results ++ M.filter (· ∈ s.enrolled)) := by
   cases a with
   | accept l =>
     simp only [step]
     split
     · rename_i x hx
       split
-      · obtain ⟨A, B, A', B', hp, hr, hy⟩ := I1_setLoop_cases s l x hx
-        refine Or.inr (Or.inl ⟨A ++ pendingOf x, B, hp, ?_, rfl, rfl, Or.inl rfl⟩)
-        simp only [pending, setLoop, hy, pendingOf_push_register, List.append_assoc]
+      · split
+        · obtain ⟨A, B, A', B', hp, hr, hy⟩ := I1_setLoop_cases s l x hx
+          refine Or.inr (Or.inl ⟨A ++ pendingOf x, B, hp, ?_, rfl, rfl, Or.inl rfl⟩)
+          simp only [pending, setLoop, hy, pendingOf_push_register, List.append_assoc]
+        · exact Or.inr (Or.inr (Or.inr (Or.inl ⟨rfl, rfl, Or.inl ⟨rfl, rfl⟩⟩)))
       · exact Or.inl ⟨rfl, rfl, rfl, rfl⟩
     · exact Or.inl ⟨rfl, rfl, rfl, rfl⟩
   | enroll l =>
@@ -715,9 +753,11 @@ theorem step_cases (s : State) (a : Step) :
     split
     · rename_i x hx
       split
-      · obtain ⟨A, B, A', B', hp, hr, hy⟩ := I1_setLoop_cases s l x hx
-        refine Or.inr (Or.inl ⟨A ++ pendingOf x, B, hp, ?_, rfl, rfl, Or.inr rfl⟩)
-        simp only [pending, setLoop, hy, pendingOf_push_register, List.append_assoc]
+      · split
+        · obtain ⟨A, B, A', B', hp, hr, hy⟩ := I1_setLoop_cases s l x hx
+          refine Or.inr (Or.inl ⟨A ++ pendingOf x, B, hp, ?_, rfl, rfl, Or.inr rfl⟩)
+          simp only [pending, setLoop, hy, pendingOf_push_register, List.append_assoc]
+        · exact Or.inr (Or.inr (Or.inr (Or.inl ⟨rfl, rfl, Or.inr ⟨rfl, rfl⟩⟩)))
       · exact Or.inl ⟨rfl, rfl, rfl, rfl⟩
     · exact Or.inl ⟨rfl, rfl, rfl, rfl⟩
   | exec l =>
@@ -729,16 +769,14 @@ theorem step_cases (s : State) (a : Step) :
         · rename_i fd q hq
           obtain ⟨A, B, A', B', hp, hr, hy⟩ := I1_setLoop_cases s l x hx
           rw [pendingOf_pop_register x fd q x.running (x.conns ++ [fd]) hq] at hp
-          refine Or.inr (Or.inr ⟨A, pendingOf { running := x.running, queue := q, conns := x.conns ++ [fd] } ++ B,
-            fd, ?_, ?_, rfl, rfl, rfl⟩)
+          refine Or.inr (Or.inr (Or.inl ⟨A, pendingOf { running := x.running, queue := q, conns := x.conns ++ [fd] } ++ B,
+            fd, ?_, ?_, rfl, rfl, rfl⟩))
           · rw [hp]; simp only [List.append_assoc, List.cons_append]
           · simp only [pending, setLoop, hy, List.append_assoc]
         · rename_i q hq
-          obtain ⟨A, B, A', B', hp, hr, hy⟩ := I1_setLoop_cases s l x hx
-          rw [pendingOf_pop_sentinel x q false [] hq] at hp
-          refine Or.inl ⟨?_, rfl, rfl, rfl⟩
-          simp only [pending, setLoop, exitLoop, hy] at hp ⊢
-          exact hp.symm
+          obtain ⟨A, B, _, _, e1, _, e3, _, _, e6, _⟩ :=
+            exitLoop_spec s l x _ hx (pendingOf_pop_sentinel x q x.running x.conns hq).symm rfl
+          exact Or.inr (Or.inr (Or.inr (Or.inr ⟨A, pendingOf x, B, e1, e3, rfl, rfl, e6⟩)))
         · exact Or.inl ⟨rfl, rfl, rfl, rfl⟩
       · exact Or.inl ⟨rfl, rfl, rfl, rfl⟩
     · exact Or.inl ⟨rfl, rfl, rfl, rfl⟩
@@ -747,11 +785,8 @@ theorem step_cases (s : State) (a : Step) :
     split
     · rename_i x hx
       split
-      · obtain ⟨A, B, A', B', hp, hr, hy⟩ := I1_setLoop_cases s l x hx
-        rw [← pendingOf_queue x false []] at hp
-        refine Or.inl ⟨?_, rfl, rfl, rfl⟩
-        simp only [pending, setLoop, exitLoop, hy] at hp ⊢
-        exact hp.symm
+      · obtain ⟨A, B, _, _, e1, _, e3, _, _, e6, _⟩ := exitLoop_spec s l x x hx rfl rfl
+        exact Or.inr (Or.inr (Or.inr (Or.inr ⟨A, pendingOf x, B, e1, e3, rfl, rfl, e6⟩)))
       · exact Or.inl ⟨rfl, rfl, rfl, rfl⟩
     · exact Or.inl ⟨rfl, rfl, rfl, rfl⟩
   | peerClose l fd =>
@@ -806,7 +841,8 @@ theorem count_singleton_ne {a b : Nat} (h : b ≠ a) : List.count a [b] = 0 := b
 
 theorem J_step (s : State) (a : Step) (h1 : I1 s) (h : J s) : J (step s a) := by
   obtain ⟨j1, j2, j3, j4⟩ := h
-  rcases step_cases s a with ⟨hp, hr, he, hn⟩ | ⟨A, B, hp, hp', hn, hr, he⟩ | ⟨A, B, fd, hp, hp', hn, he, hr⟩
+  rcases step_cases s a with ⟨hp, hr, he, hn⟩ | ⟨A, B, hp, hp', hn, hr, he⟩ | ⟨A, B, fd, hp, hp', hn, he, hr⟩ |
+    ⟨hp, hn, hre⟩ | ⟨A, M, B, hp, hp', hn, he, hr⟩
   · unfold J
     rw [hp, hr, he, hn]
     exact ⟨j1, j2, j3, j4⟩
@@ -870,6 +906,56 @@ theorem J_step (s : State) (a : Step) (h1 : I1 s) (h : J s) : J (step s a) := by
           omega
         · simp only [List.count_append, List.count_cons, hb, Bool.false_eq_true, if_false] at h4 ⊢
           omega
+  · -- a fresh descriptor is aborted at once (closed; answered with an error if it was an enrolment)
+    have hfresh : s.nextFd ∉ pending s := fun hm => Nat.lt_irrefl _ (pending_lt s h1 _ hm)
+    rcases hre with ⟨hr, he⟩ | ⟨hr, he⟩
+    · unfold J
+      rw [hp, hn, hr, he]
+      exact ⟨fun a ha => Nat.lt_succ_of_lt (j1 a ha), j2, j3, j4⟩
+    · unfold J
+      rw [hp, hn, hr, he]
+      refine ⟨?_, ?_, ?_, ?_⟩
+      · intro a ha
+        rcases List.mem_append.mp ha with ha | ha
+        · exact Nat.lt_succ_of_lt (j1 a ha)
+        · rw [List.mem_singleton.mp ha]; exact Nat.lt_succ_self _
+      · rw [List.nodup_append]
+        refine ⟨j2, by simp, ?_⟩
+        intro a ha b hb e
+        rw [List.mem_singleton.mp hb] at e
+        exact Nat.lt_irrefl _ (e ▸ j1 a ha)
+      · intro a ha
+        rcases List.mem_append.mp ha with ha | ha
+        · exact List.mem_append_left _ (j3 a ha)
+        · exact List.mem_append_right _ ha
+      · intro a ha
+        rcases List.mem_append.mp ha with ha | ha
+        · have h4 := j4 a ha
+          have hne : s.nextFd ≠ a := fun e => Nat.lt_irrefl _ (e ▸ j1 a ha)
+          simp only [List.count_append, count_singleton_ne hne] at h4 ⊢
+          omega
+        · rw [List.mem_singleton.mp ha]
+          have hnr : s.nextFd ∉ s.results := fun hm => Nat.lt_irrefl _ (j1 _ (j3 _ hm))
+          have c1 : List.count s.nextFd s.results = 0 := List.count_eq_zero_of_not_mem hnr
+          have c2 : List.count s.nextFd (pending s) = 0 := List.count_eq_zero_of_not_mem hfresh
+          simp only [List.count_append, List.count_singleton, beq_self_eq_true, if_true]
+          omega
+  · -- a loop exits: the registrations M in its queue are aborted, the enrolled ones among them answered
+    unfold J
+    rw [hp', hn, he, hr]
+    refine ⟨j1, j2, ?_, ?_⟩
+    · intro a ha
+      rcases List.mem_append.mp ha with ha | ha
+      · exact j3 a ha
+      · have := (List.mem_filter.mp ha).2
+        simpa using this
+    · intro a ha
+      have h4 := j4 a ha
+      rw [hp] at h4
+      have hc : List.count a (M.filter (· ∈ s.enrolled)) = List.count a M :=
+        List.count_filter (by simpa using ha)
+      simp only [List.count_append, hc] at h4 ⊢
+      omega
 
 theorem J_init (n : Nat) : J (init n) := by
   refine ⟨?_, ?_, ?_, ?_⟩
@@ -916,15 +1002,239 @@ theorem unanswered_are_pending (s : State) (h : Reachable s) :
     have c2 : 0 < List.count fd (pending s) := List.count_pos_iff.mpr hp
     omega
 
-theorem register_unanswered_reachable :
-    let s := run (init 1) [.requestStop, .postSentinels, .exec 0, .enroll 0, .acceptorExit, .setFlag]
-    Final s = true ∧ s.inShutdown = true ∧ unanswered s = [0] := by
-  decide
-
 theorem no_enrolment_after_flag (s : State) (hs : s.inShutdown = true) (l : Nat) : step s (.enroll l) = s := by
   simp only [step, hs]
   split
   · simp
   · rfl
+
+/-- `pendingOf x = []` (and `x.conns = []`) for a loop that has exited. NOTE: the stronger `x.queue = []` is FALSE
+for the model, see `pending_only_on_running_false` below: `postSentinels` appends the shutdown sentinel to the queue
+of every loop, the exited ones included. -/
+theorem exited_loop_empty (s : State) (h : Reachable s) (l : Nat) (x : Loop)
+    (hx : s.loops[l]? = some x) (hr : x.running = false) : pendingOf x = [] ∧ x.conns = [] :=
+  (Inv_of_reachable s h).2.1 x (List.mem_of_getElem? hx) hr
+
+/-- the whole queue need not be empty: after `action 0, postSentinels` loop 0 has
+exited and its queue is `[sentinel]` -/
+theorem pending_only_on_running_false :
+    ¬ ∀ (s : State), Reachable s → ∀ (l : Nat) (x : Loop), s.loops[l]? = some x → x.running = false →
+      x.queue = [] ∧ x.conns = [] := by
+  intro hall
+  have := hall (run (init 1) [.action 0, .postSentinels]) ⟨1, _, rfl⟩ 0
+    { running := false, queue := [Task.sentinel], conns := [] } (by decide) rfl
+  exact absurd this.1 (by decide)
+
+/-- what holds of an exited loop (its queue may still hold the shutdown sentinel, see above) -/
+theorem pending_only_on_running (s : State) (h : Reachable s) (l : Nat) (x : Loop)
+    (hx : s.loops[l]? = some x) (hr : x.running = false) : pendingOf x = [] ∧ x.conns = [] :=
+  exited_loop_empty s h l x hx hr
+
+theorem final_no_leak (s : State) (h : Reachable s) (hf : Final s = true) :
+    unclosed s = [] ∧ s.closed.Perm (created s) := by
+  have hi := Inv_of_reachable s h
+  have hpart := partition s h
+  rw [registered_final s hi hf, pending_final s hi hf] at hpart
+  simp only [List.nil_append] at hpart
+  refine ⟨?_, hpart⟩
+  unfold unclosed
+  rw [List.filter_eq_nil_iff]
+  intro a ha
+  simpa using hpart.mem_iff.mpr ha
+
+theorem final_all_answered (s : State) (h : Reachable s) (hf : Final s = true) : unanswered s = [] := by
+  rw [List.eq_nil_iff_forall_not_mem]
+  intro fd hfd
+  have hp := ((unanswered_are_pending s h fd).mp hfd).2
+  rw [pending_final s (Inv_of_reachable s h) hf] at hp
+  cases hp
+
+/-! ## failed registrations -/
+
+/-- a failed registration has been answered and closed and never opened; every other result belongs to a
+descriptor that was opened -/
+def K (s : State) : Prop :=
+  (∀ a ∈ s.failed, a ∈ s.results ∧ a ∈ s.closed ∧ a ∉ s.opened.map Prod.fst) ∧
+  (∀ a ∈ s.results, a ∉ s.failed → a ∈ s.opened.map Prod.fst)
+
+theorem count_range_le_one (a n : Nat) : List.count a (List.range n) ≤ 1 :=
+  List.nodup_iff_count.mp List.nodup_range a
+
+theorem pending_not_closed (s : State) (h : I1 s) (a : Nat) (ha : a ∈ pending s) : a ∉ s.closed := by
+  intro hc
+  have h1 := h.1 a
+  have := count_range_le_one a s.nextFd
+  have c1 : 0 < List.count a (pending s) := List.count_pos_iff.mpr ha
+  have c2 : 0 < List.count a s.closed := List.count_pos_iff.mpr hc
+  simp only [obs, List.count_append] at h1
+  omega
+
+theorem pending_not_opened (s : State) (h : I1 s) (a : Nat) (ha : a ∈ pending s) : a ∉ s.opened.map Prod.fst := by
+  intro ho
+  have h1 := h.1 a
+  have h2 := h.2 a
+  have := count_range_le_one a s.nextFd
+  have c1 : 0 < List.count a (pending s) := List.count_pos_iff.mpr ha
+  have c2 : 0 < List.count a (s.opened.map Prod.fst) := List.count_pos_iff.mpr ho
+  simp only [obs, List.count_append] at h1 h2
+  omega
+
+theorem opened_lt (s : State) (h : I1 s) (a : Nat) (ha : a ∈ s.opened.map Prod.fst) : a < s.nextFd := by
+  have h1 := h.1 a
+  have h2 := h.2 a
+  have c2 : 0 < List.count a (s.opened.map Prod.fst) := List.count_pos_iff.mpr ha
+  simp only [obs, List.count_append] at h1 h2
+  have : 0 < List.count a (List.range s.nextFd) := by omega
+  exact List.mem_range.mp (List.count_pos_iff.mp this)
+
+/-- K is kept when only `closed` grows -/
+theorem K_closed_mono (s s' : State) (hr : s'.results = s.results) (hf : s'.failed = s.failed)
+    (ho : s'.opened = s.opened) (hc : ∀ a ∈ s.closed, a ∈ s'.closed) (h : K s) : K s' := by
+  unfold K
+  rw [hr, hf, ho]
+  exact ⟨fun a ha => ⟨(h.1 a ha).1, hc a (h.1 a ha).2.1, (h.1 a ha).2.2⟩, h.2⟩
+
+theorem K_exitLoop (s : State) (l : Nat) (x y : Loop) (hx : s.loops[l]? = some x)
+    (hp : pendingOf y = pendingOf x) (hc : y.conns = x.conns) (h1 : I1 s) (h : K s) : K (exitLoop s l y) := by
+  obtain ⟨A, B, A', B', e1, _, _, _, e5, e6, e7⟩ := exitLoop_spec s l x y hx hp hc
+  have e8 : (exitLoop s l y).opened = s.opened := rfl
+  unfold K
+  rw [e5, e6, e7, e8]
+  refine ⟨?_, ?_⟩
+  · intro a ha
+    rcases List.mem_append.mp ha with ha | ha
+    · exact ⟨List.mem_append_left _ (h.1 a ha).1,
+        List.mem_append_left _ (List.mem_append_left _ (h.1 a ha).2.1), (h.1 a ha).2.2⟩
+    · have hm : a ∈ pendingOf x := (List.mem_filter.mp ha).1
+      have hps : a ∈ pending s := by
+        rw [e1]; exact List.mem_append_left _ (List.mem_append_right _ hm)
+      exact ⟨List.mem_append_right _ ha, List.mem_append_right _ hm, pending_not_opened s h1 a hps⟩
+  · intro a ha hnf
+    rcases List.mem_append.mp ha with ha | ha
+    · exact h.2 a ha (fun hf => hnf (List.mem_append_left _ hf))
+    · exact absurd (List.mem_append_right _ ha) hnf
+
+theorem K_step (s : State) (a : Step) (h1 : I1 s) (h : K s) : K (step s a) := by
+  cases a with
+  | accept l =>
+    simp only [step]
+    split
+    · rename_i x hx
+      split
+      · split
+        · exact h
+        · exact K_closed_mono s _ rfl rfl rfl (fun a ha => List.mem_append_left _ ha) h
+      · exact h
+    · exact h
+  | exec l =>
+    simp only [step]
+    split
+    · rename_i x hx
+      split
+      · split
+        · rename_i fd q hq
+          obtain ⟨A, B, _, _, hp, _, _⟩ := I1_setLoop_cases s l x hx
+          have hfd : fd ∈ pending s := by
+            rw [hp, pendingOf_pop_register x fd q x.running x.conns hq]
+            exact List.mem_append_left _ (List.mem_append_right _ List.mem_cons_self)
+          have hnf : fd ∉ s.failed := fun hf => pending_not_closed s h1 fd hfd (h.1 fd hf).2.1
+          refine ⟨?_, ?_⟩
+          · intro a ha
+            have ha' : a ∈ s.failed := ha
+            refine ⟨?_, (h.1 a ha').2.1, ?_⟩
+            · show a ∈ (if fd ∈ s.enrolled then s.results ++ [fd] else s.results)
+              split
+              · exact List.mem_append_left _ (h.1 a ha').1
+              · exact (h.1 a ha').1
+            · show a ∉ (s.opened ++ [(fd, l)]).map Prod.fst
+              simp only [List.map_append, List.map_cons, List.map_nil, List.mem_append, List.mem_singleton]
+              rintro (ho | ho)
+              · exact (h.1 a ha').2.2 ho
+              · exact hnf (ho ▸ ha')
+          · intro a ha hnfa
+            have ha' : a ∈ (if fd ∈ s.enrolled then s.results ++ [fd] else s.results) := ha
+            have hnfa' : a ∉ s.failed := hnfa
+            show a ∈ (s.opened ++ [(fd, l)]).map Prod.fst
+            simp only [List.map_append, List.map_cons, List.map_nil, List.mem_append, List.mem_singleton]
+            split at ha'
+            · rcases List.mem_append.mp ha' with hr | hr
+              · exact Or.inl (h.2 a hr hnfa')
+              · exact Or.inr (List.mem_singleton.mp hr)
+            · exact Or.inl (h.2 a ha' hnfa')
+        · rename_i q hq
+          exact K_exitLoop s l x _ hx (pendingOf_pop_sentinel x q x.running x.conns hq).symm rfl h1 h
+        · exact h
+      · exact h
+    · exact h
+  | action l =>
+    simp only [step]
+    split
+    · rename_i x hx
+      split
+      · exact K_exitLoop s l x x hx rfl rfl h1 h
+      · exact h
+    · exact h
+  | peerClose l fd =>
+    simp only [step]
+    split
+    · split
+      · exact K_closed_mono s _ rfl rfl rfl (fun a ha => List.mem_append_left _ ha) h
+      · exact h
+    · exact h
+  | requestStop => exact h
+  | postSentinels =>
+    simp only [step]
+    split
+    · exact h
+    · exact h
+  | acceptorExit =>
+    simp only [step]
+    split
+    · exact h
+    · exact h
+  | enroll l =>
+    simp only [step]
+    split
+    · split
+      · split
+        · exact h
+        · have hno : s.nextFd ∉ s.opened.map Prod.fst := fun ho => Nat.lt_irrefl _ (opened_lt s h1 _ ho)
+          refine ⟨?_, ?_⟩
+          · intro a ha
+            have ha' : a ∈ s.failed ++ [s.nextFd] := ha
+            show a ∈ s.results ++ [s.nextFd] ∧ a ∈ s.closed ++ [s.nextFd] ∧ a ∉ s.opened.map Prod.fst
+            rcases List.mem_append.mp ha' with hf | hf
+            · exact ⟨List.mem_append_left _ (h.1 a hf).1, List.mem_append_left _ (h.1 a hf).2.1, (h.1 a hf).2.2⟩
+            · rw [List.mem_singleton.mp hf]
+              exact ⟨List.mem_append_right _ (List.mem_singleton.mpr rfl),
+                List.mem_append_right _ (List.mem_singleton.mpr rfl), hno⟩
+          · intro a ha hnf
+            have ha' : a ∈ s.results ++ [s.nextFd] := ha
+            have hnf' : a ∉ s.failed ++ [s.nextFd] := hnf
+            show a ∈ s.opened.map Prod.fst
+            rcases List.mem_append.mp ha' with hr | hr
+            · exact h.2 a hr (fun hf => hnf' (List.mem_append_left _ hf))
+            · exact absurd (List.mem_append_right _ hr) hnf'
+      · exact h
+    · exact h
+  | setFlag =>
+    simp only [step]
+    split
+    · exact h
+    · exact h
+
+theorem K_init (n : Nat) : K (init n) :=
+  ⟨fun a ha => by simp [init] at ha, fun a ha => by simp [init] at ha⟩
+
+theorem InvK_run (steps : List Step) : ∀ s, Inv s → K s → K (run s steps) := by
+  induction steps with
+  | nil => intro s _ h; exact h
+  | cons a rest ih => intro s hi h; exact ih (step s a) (Inv_step s a hi) (K_step s a hi.1 h)
+
+theorem failed_results (s : State) (h : Reachable s) :
+    (∀ fd ∈ s.failed, fd ∈ s.results ∧ fd ∈ s.closed ∧ fd ∉ s.opened.map Prod.fst) ∧
+    (∀ fd ∈ s.results, fd ∉ s.failed → fd ∈ s.opened.map Prod.fst) := by
+  obtain ⟨n, steps, rfl⟩ := h
+  exact InvK_run steps _ (Inv_init n) (K_init n)
 
 end Gnet.Proofs.Handover
